@@ -96,6 +96,14 @@ CLAIMED = {
          "generated fonts, hand-assembled WOFF at the zlib break-even size, transplanted unknown tables x lazy modes — decoded content, "
          "second-generation fixed point, pass-through of untouched tables (testing). Known finding F8 (Silf).",
          "Rocq proof of pass-through/fixed-point over a parametric save machine + instrumented correspondence + recompile sweeps"),
+ "C02": ("Round-trip theorems for the Gallina transcriptions of the hmtx/vmtx codec (trailing-advance trimming: decoding with the "
+         "numberOfHMetrics the compiler chose returns every glyph's metrics; that count is minimal) and of loca (round trip; the short format "
+         "is chosen exactly when every offset is even and below 0x20000), for all metric/offset lists. Tied to the table classes by byte-exact "
+         "correspondence incl. malformed data for the decoder. The remaining codecs (cmap 0/2/4/6/12/13/14, simple glyphs with every flag/"
+         "repeat pattern and both coordinate compilers, components, whole glyf/loca tables around the 0x20000 limit with every padding, gvar "
+         "tuple variations with 1..300 explicit points, name, kern) are implementation round-trip sweeps on generated contents (testing). "
+         "Known finding F7 (empty cmap 12/13).",
+         "Rocq proof of hmtx/loca codec round trips + byte-exact correspondence + generated-content round-trip sweeps"),
 }
 
 def main():
